@@ -75,10 +75,16 @@ class Matcher:
             self._rigid_cache[name] = r
         return r
 
-    def unify(self, p, n, fwd, bwd):
+    def unify(self, p, n, fwd, bwd, in_raise=False):
         if isinstance(p, ast.AST):
+            if in_raise and isinstance(p, (ast.Constant, ast.JoinedStr)) and isinstance(n, (ast.Constant, ast.JoinedStr)) \
+                    and (isinstance(p, ast.JoinedStr) or isinstance(p.value, str)) and \
+                    (isinstance(n, ast.JoinedStr) or isinstance(n.value, str)):
+                return True         # the wording of an error message is not part of what is decided
             if type(p) is not type(n):
                 return False
+            if isinstance(p, ast.Raise):
+                in_raise = True
             if isinstance(p, ast.Name):
                 if self.rigid(p.id):
                     return p.id == n.id
@@ -105,13 +111,13 @@ class Matcher:
             for field in p._fields:
                 if field in _IGNORE:
                     continue
-                if not self.unify(getattr(p, field, None), getattr(n, field, None), fwd, bwd):
+                if not self.unify(getattr(p, field, None), getattr(n, field, None), fwd, bwd, in_raise):
                     return False
             return True
         if isinstance(p, list):
             if not isinstance(n, list) or len(p) != len(n):
                 return False
-            return all(self.unify(a, b, fwd, bwd) for a, b in zip(p, n))
+            return all(self.unify(a, b, fwd, bwd, in_raise) for a, b in zip(p, n))
         return p == n
 
     def find(self, fragment):
